@@ -13,7 +13,8 @@ EXTENDS Integers, Sequences, FiniteSets, TLC, Json
 
 CONSTANTS Kinds,      \* subset of {"composite", "rolling", "decorator"}
           Resyncs,    \* set of [txt |-> <JSON text of resyncAfterSeconds>, ms |-> <delay asked for, 0 = none>]
-          Outcomes    \* subset of {"ok", "hook500", "hook429", "apiErr"}
+          Outcomes    \* subset of {"ok", "hook500", "hook429", "apiErr", "outage"}   (outage: the hook fails for a dozen syncs
+                      \* in a row and then recovers: every failed sync is requeued with back-off, the work is never dropped)
 
 NoR == [txt |-> "none", ms |-> 0]
 VARIABLES kind, r1, r2, outcome
@@ -30,7 +31,7 @@ Asked    == IF Pos({r1, r2}) = {} THEN {} ELSE {Min(Pos({r1, r2}))}
 Result   == CASE outcome = "ok"      -> "ok"
               [] outcome = "hook429" -> IF kind = "decorator" THEN "error" ELSE "ok"
               [] OTHER               -> "error"
-After    == CASE outcome = "hook500" -> {}
+After    == CASE outcome \in {"hook500", "outage"} -> {}
               [] outcome = "hook429" -> IF kind = "decorator" THEN {} ELSE {7000}
               [] OTHER               -> Asked
 Final    == IF Result = "ok" THEN "Forget" ELSE "AddRateLimited"
